@@ -77,11 +77,23 @@ def e2e(ctx, build, scratch, exe, cat, model, tier):
                 if sorted(pick) == rows:
                     ok = True
                     break
+            cause = "rows"
+            if not ok:
+                # would the rows be explained if a CPU in a task body showed the body subsystem instead of its task type?
+                alt = []
+                for r in range(1, ncpu + 1):
+                    v = set(cpu_value(disp, r, c))
+                    if disp.get(("cpu", r, c["idle"]), 0) == 100 and disp.get(("cpu", r, c["ss"]), 0) == c["body"] and disp.get(("cpu", r, c["ty"]), 0):
+                        v.add(c["body"])
+                        v.add(0)
+                    alt.append(v)
+                if any(sorted(p) == rows for p in itertools.product(*alt)):
+                    cause = "type-hidden-after-resume-in-body"
             if not ok:
                 ctx.violation("%s -b: after %s the breakdown rows show %r but the CPU rows give per-CPU values %r" % (
                     model, short_hist(prefix + hist + ([ev] if ev else [])), rows, [sorted(v) for v in vals]),
                     {"engine": "E3 emu_server -b", "model": model, "spec": spec, "history": [e.line() for e in prefix + hist], "probe": ev.line() if ev else None,
-                     "rows": rows, "cpu_values": [sorted(v) for v in vals]}, {"kind": "breakdown-rows", "model": model})
+                     "rows": rows, "cpu_values": [sorted(v) for v in vals]}, {"kind": "breakdown-rows", "cause": cause})
         check(disp0, [], None)
         for lvl in range(depth):
             res = pool.expand_many([(prefix + h, alpha) for (h, d) in frontier])
